@@ -23,6 +23,8 @@ inductive Macro where
   | pop (p c i : Nat)                       -- c.pop(…) returns the nested proxy to p
   | delitem (p c i : Nat)                   -- del c[k] / c.clear() / overwrite: the nested proxy is dropped in the server
   | getitem (p c i : Nat)                   -- c[k] returns (a copy of) the nested proxy to p
+  | pass (p c i : Nat)                       -- a method of `c` gets the proxy as an argument and does not keep it
+                                             --   (count / index / a call that raises): dropped with the request
   | call (p i : Nat)
   | exit (q : Nat)
 
@@ -36,6 +38,7 @@ def expand (s : State) : Macro → List Act
   | .pop p c i => [.call p c, .unstore c i, .pickle .temp i, .drop .temp i, .unpickle (.client p) i, .drop .rebuild i]
   | .delitem p c i => [.call p c, .unstore c i, .drop .temp i]
   | .getitem p c i => [.call p c, .pickle (.item c) i, .unpickle (.client p) i, .drop .rebuild i]
+  | .pass p c i => [.call p c, .pickle (.client p) i, .unpickle .temp i, .drop .rebuild i]   -- `quiesce` drops the temp
   | .call p i => [.call p i]
   | .exit q =>
     .exitBegin q :: ((s.refs.filter (fun r => r.1 == .client q)).map (fun r => .drop (.client q) r.2)) ++ [.exitEnd q]
@@ -53,6 +56,7 @@ def parseMacro : List String → Option Macro
   | ["pop", p, c, i] => do some (.pop (← p.toNat?) (← c.toNat?) (← i.toNat?))
   | ["delitem", p, c, i] => do some (.delitem (← p.toNat?) (← c.toNat?) (← i.toNat?))
   | ["getitem", p, c, i] => do some (.getitem (← p.toNat?) (← c.toNat?) (← i.toNat?))
+  | ["pass", p, c, i] => do some (.pass (← p.toNat?) (← c.toNat?) (← i.toNat?))
   | ["call", p, i] => do some (.call (← p.toNat?) (← i.toNat?))
   | ["exit", q] => do some (.exit (← q.toNat?))
   | _ => none
@@ -73,7 +77,7 @@ def table (st : St) : String :=
 
 def maxIdent : Macro → Nat
   | .create _ _ i | .manage _ i | .pickle _ i | .unpickle _ i | .delete _ i | .call _ i => i + 1
-  | .store _ c i | .pop _ c i | .delitem _ c i | .getitem _ c i => max c i + 1
+  | .store _ c i | .pop _ c i | .delitem _ c i | .getitem _ c i | .pass _ c i => max c i + 1
   | .exit _ => 0
 
 partial def loop (h : IO.FS.Stream) (st : St) : IO Unit := do
